@@ -96,6 +96,9 @@ class RunId(object):
         self._hash = None
 
     def has_same_executable(self, other):
+        # the executable is only known once the command line was constructed
+        self.cmdline()
+        other.cmdline()
         return self.executable == other.executable
 
     @property
